@@ -179,16 +179,17 @@ pub fn tokenize_expression(input: &str) -> Result<Vec<Token>, CompilerError> {
                     }
                     index += 1;
                 }
-                let token_text = &input[start..index];
+                // `start`/`index` count characters, not bytes: do not slice `input` with them
+                let token_text: String = chars[start..index].iter().collect();
                 if saw_identifier_tail {
-                    tokens.push(Token::Ident(token_text.to_owned()));
+                    tokens.push(Token::Ident(token_text));
                 } else if saw_dot {
-                    let value = input[start..index].parse::<f32>().map_err(|error| {
+                    let value = token_text.parse::<f32>().map_err(|error| {
                         CompilerError::invalid_source(format!("invalid float literal: {error}"))
                     })?;
                     tokens.push(Token::Float(value));
                 } else {
-                    let value = input[start..index].parse::<i32>().map_err(|error| {
+                    let value = token_text.parse::<i32>().map_err(|error| {
                         CompilerError::invalid_source(format!("invalid integer literal: {error}"))
                     })?;
                     tokens.push(Token::Int(value));
@@ -202,8 +203,8 @@ pub fn tokenize_expression(input: &str) -> Result<Vec<Token>, CompilerError> {
                 {
                     index += 1;
                 }
-                let ident = &input[start..index];
-                match ident {
+                let ident: String = chars[start..index].iter().collect();
+                match ident.as_str() {
                     "true" => tokens.push(Token::Bool(true)),
                     "false" => tokens.push(Token::Bool(false)),
                     "and" => tokens.push(Token::AndAnd),
@@ -211,7 +212,7 @@ pub fn tokenize_expression(input: &str) -> Result<Vec<Token>, CompilerError> {
                     "not" => tokens.push(Token::Bang),
                     "has" => tokens.push(Token::Has),
                     "hasnt" => tokens.push(Token::Hasnt),
-                    _ => tokens.push(Token::Ident(ident.to_owned())),
+                    _ => tokens.push(Token::Ident(ident)),
                 }
             }
             _ => {
@@ -294,16 +295,15 @@ pub fn split_top_level_commas(input: &str) -> Vec<&str> {
     let mut start = 0;
     let mut depth = 0;
     let mut in_string = false;
-    let chars: Vec<char> = input.chars().collect();
-
-    for (index, ch) in chars.iter().enumerate() {
+    // byte offsets (the parts are sliced out of `input`)
+    for (index, ch) in input.char_indices() {
         match ch {
             '"' => in_string = !in_string,
             '(' if !in_string => depth += 1,
             ')' if !in_string => depth -= 1,
             ',' if !in_string && depth == 0 => {
                 parts.push(input[start..index].trim());
-                start = index + 1;
+                start = index + ch.len_utf8();
             }
             _ => {}
         }
